@@ -63,6 +63,58 @@ def round_trip(F, cfg, buses, viol, info):
     return data, back
 
 
+def check_types(chk, viol, cfg, dbs, which, mk_info):
+    """documented field types of a matrix a reader returned (bool / int / list of str ...): identity tests such as
+    `is_little_endian is False` in canmatrix and the writers depend on them"""
+    for m in dbs.values():
+        probs = fmt_rt.field_type_problems(m, which)
+        if probs:
+            fr, sg, field, val = probs[0]
+            viol(cfg.kbase + "-field-type", "the reader stores %s with another type than documented" % field,
+                 dict(mk_info(None), frame_name=fr, signal=sg, field=field, all=[list(p) for p in probs[:8]]), "documented type", val)
+        chk.count("field-types-checked:" + cfg.fmt)
+
+
+def chain_stage(chk, viol, C, F, rng, prop, digits, compare, which, tie_cases):
+    """conversion chains A -> B: the matrix A's reader produced goes through B's write+read and is compared with B's result"""
+    per_pair = 2 if chk.tier != "thorough" else 14
+    for akey in fmt_rt.CHAIN_SOURCES:
+        a = fmt_rt.cfg_by_key(akey)
+        for b in fmt_rt.CONFIGS:
+            if prop not in b.props:
+                continue
+            for it in range(per_pair):
+                m, afile = fmt_rt.gen_chain_source(rng, C, F, a, b, digits)
+                if m is None:
+                    chk.count("chain-source-skipped:" + a.key)
+                    continue
+
+                def mk_info(fr=None, sig=None, a=a, b=b, it=it, afile=afile):
+                    d = {"format": b.key, "options": b.opts, "via": a.key, "via_options": a.opts, "iteration": it}
+                    if a.fmt != "xls":
+                        d["via_file"] = afile.decode("utf-8", "replace")[:8000]
+                    if fr is not None:
+                        d["frame"] = fmt_rt.frame_brief(fr)
+                    if sig is not None:
+                        d["signal"] = sig
+                    return d
+                check_types(chk, viol, a, {"": m}, which, mk_info)
+                why = fmt_rt.inside_envelope(b, m)
+                if why is not None:
+                    chk.count("chain-outside-envelope:%s->%s" % (a.fmt, b.fmt))
+                    chk.count("chain-outside-envelope-reason:" + why)
+                    continue
+                buses = {"Chain": m} if b.cluster else {"": m}
+                orig = copy.deepcopy(buses)
+                chk.count("chain:%s->%s" % (a.fmt, b.fmt))
+                r = round_trip(F, b, buses, viol if prop == "C06" else (lambda *x, **k: chk.count("round-trip-raises (C06's subject)")), mk_info)
+                if r is None or r[1] is None:
+                    continue
+                check_types(chk, viol, b, r[1], which, mk_info)
+                compare(chk, viol, b, rng, orig, r[1], mk_info)
+                tie_cases.append((b, orig, r[0], r[1]))
+
+
 def compare_layout(chk, viol, cfg, rng, orig, back, mk_info):
     """orig/back: dict bus -> CanMatrix.  Returns number of frames compared."""
     nfr = 0
@@ -212,6 +264,7 @@ def run(chk):
                     tie_cases.append((cfg, orig, r[0], None))
                 continue
             data, back = r
+            check_types(chk, viol, cfg, back, "layout", mk_info)
             compare_layout(chk, viol, cfg, rng, orig, back, mk_info)
             tie_cases.append((cfg, orig, data, back))
     # ---- directed matrices (one per hazard) ----
@@ -235,8 +288,11 @@ def run(chk):
                 if r is not None:
                     tie_cases.append((cfg, orig, r[0], None))
                 continue
+            check_types(chk, viol, cfg, r[1], "layout", mk_info)
             compare_layout(chk, viol, cfg, rng, orig, r[1], mk_info)
             tie_cases.append((cfg, orig, r[0], r[1]))
+    # ---- conversion chains ----
+    chain_stage(chk, viol, C, F, rng, "C06", 4, compare_layout, "layout", tie_cases)
     # ---- placement sweep: one signal per frame, every (byte order, start, width) of an 8 byte frame ----
     placements = [(le, st, w) for le in (True, False) for w in range(1, 65) for st in range(0, 65 - w)]
     if chk.tier != "thorough":
